@@ -63,6 +63,8 @@ type contract struct {
 	Interface bool
 	External  bool // assumed, not verified
 	HeapWF    bool // include the heap well-formedness axioms in this function's queries
+	Defines   cExpr
+	DefinesSrc string
 	Names     []string // optional parameter names (receiver first)
 	Clauses   []*clause
 	Safety    []string // property ids to which nopanic obligations are attributed
@@ -90,7 +92,7 @@ type contractDB struct {
 	Files     []string
 }
 
-var clauseKw = regexp.MustCompile(`^(heapwf|reveal|scope|invariant|ghost|spec|macro|lemma|contract|external|requires|ensures|emits|callsite|decreases|loop|safety|props|inline|pure|modifies|noreturn|fuel|unreachable)\b`)
+var clauseKw = regexp.MustCompile(`^(defines|heapwf|reveal|scope|invariant|ghost|spec|macro|lemma|contract|external|requires|ensures|emits|callsite|decreases|loop|safety|props|inline|pure|modifies|noreturn|fuel|unreachable)\b`)
 
 func newContractDB() *contractDB {
 	return &contractDB{Specs: map[string]*specDef{}, Contracts: map[string]*contract{}, Ghosts: map[string]string{}, Scopes: map[string][]string{}, Invariants: map[string][]*clause{}, RevealPost: map[string]bool{}}
@@ -367,6 +369,18 @@ func (db *contractDB) loadContractFile(path, pkgPath string) error {
 				cur.Modifies = append(cur.Modifies, splitList(rest)...)
 				continue
 			case "fuel":
+				continue
+			case "defines":
+				// defines SPEC(args): the function's result is, by definition, the value of an otherwise uninterpreted
+				// spec function of these arguments. Nothing is proved of it; what makes the definition meaningful is that
+				// the function is a deterministic function of its arguments and of the heap the spec reads (its write
+				// analysis must show no effect on pre-existing objects). Listed among the assumptions of every check using it.
+				e, err := parseCExpr(rest)
+				if err != nil {
+					return fail("%v", err)
+				}
+				cur.Defines = e
+				cur.DefinesSrc = rest
 				continue
 			case "heapwf":
 				// the function's proof needs the heap well-formedness axioms (values stored in allocated cells were
